@@ -147,6 +147,11 @@ func (h *aesCCM) Encrypt(iv, plaintext, additionalData []byte) ([]byte, error) {
 			nonceSize, len(iv))
 	}
 	aead, _ := NewCCM(h.block, tagSize, nonceSize) // err should never happen
+	// Seal would panic
+	if len(plaintext) > aead.MaxLength() {
+		return nil, fmt.Errorf("cose/key/aesccm: Encryptor.Encrypt: plaintext too large, expected <= %d, got %d",
+			aead.MaxLength(), len(plaintext))
+	}
 	ciphertext := aead.Seal(nil, iv, plaintext, additionalData)
 	return ciphertext, nil
 }
